@@ -21,7 +21,20 @@ Round 5 (open signatures): 10% of the generated functions / methods collect furt
 *rest too) and their calls pass items (name, value) either as a keyword or - into *rest - as the 2-tuple (name, value), the
 very shape qcore's get_args_tuple gives to a keyword it does not know: f(1, x=2) and f(1, ("x", 2)) are different calls.
 Model Lib/CacheKw.lean (`openKey`: the PAIR built by tools._args_cache_key; normalised arguments `openNorm`), theorems
-Theorems/C13c.lean, judged by the same observers `Alru.spec` / `PerInst.spec`."""
+Theorems/C13c.lean, judged by the same observers `Alru.spec` / `PerInst.spec`.
+
+Audit 3 (positional-only parameters): 30% of the functions with **opts declare their first 1..n positional parameters
+positional-only (def g(a, b=0, /, c=0, **opts)); half of their calls pass a keyword that has the NAME of a positional-only
+parameter - a valid call (PEP 570: **opts collects it).  This is where the property is FALSE of alru_cache /
+acached_per_instance as they are: g(1, a=2), g(1, a=3) and g(1) share one cache entry (OPEN FINDING, signature
+default-key/keyword-named-like-positional-only-parameter/wrong-value, C13_open_posonly_counterexample).  A keyword named
+`self` is not generated (build-dependent: TypeError in the pure-Python build, accepted by the Cython build; ASSUMPTIONS).
+
+Round 6 (values that defeat sentinel / identity / truthiness shortcuts): 12% of the bodies return a SINGLETON - None,
+NotImplemented, qcore.caching.miss / not_computed (the library's own sentinels: LRUCache.get's default), False, 0, "", () -
+and 4% an object that is falsy AND == everything (None and every sentinel included); all three caches.  The model's values are
+opaque tokens, so its theorems cover every value; the harness reports a returned singleton as (okNone) / (okS k) and the
+driver names it by the run the model predicts when that run returned the same singleton (Drv/Cache.lean resolveSingletons)."""
 import hashlib
 import itertools
 import json
@@ -62,6 +75,10 @@ HEADLINE = [
     "AsynqModel.Cache.C13_per_instance_open_signature_refines_partial",
     "AsynqModel.Cache.C13_open_flat_key_counterexample",
     "AsynqModel.Cache.C13_open_callOK_needed",
+    # positional-only parameters + **opts: the property is FALSE of the code as it is (open finding, audit 3 A1); the
+    # theorems above carry poClean / openCallOK; the key of proposed-fixes/C13-posonly-cache-key.diff on the witnesses
+    "AsynqModel.Cache.C13_open_posonly_counterexample",
+    "AsynqModel.Cache.C13_open_posonly_repaired_key",
     # every hypothesis of the theorems above is needed (machine-checked witnesses on the model)
     "AsynqModel.Cache.C13_alru_callOK_needed",
     "AsynqModel.Cache.C13_per_instance_callOK_needed",
@@ -108,7 +125,10 @@ RULE = ("three streams. alru: signature (0-3 positional-or-keyword parameters wi
         "call-with-such-a-value / plain call / drop on two instances). lazy: ttl 0/5/10 x scripted clock x "
         "call/dirty()/tick with bodies of duration 0-7 on the clock. Every body either returns (stamp, received "
         "arguments[, instance]) or raises, directly or after blocking on a batch item (35%; of these 15% on asynq's own "
-        "DebugBatchItem; on the event loop in asyncio mode); 10% of the values are falsy. "
+        "DebugBatchItem; on the event loop in asyncio mode); 10% of the values are falsy; 12% of the bodies return a singleton "
+        "instead (None 40%, NotImplemented, qcore.caching.miss, qcore.caching.not_computed, False, 0, '', ()), 4% an object "
+        "that is falsy and == everything; plus, for every such value and each of the three caches, the history call / same "
+        "call again / other key / first call again (lazy: call / call / tick / call / dirty / call). "
         "Every generated history is crossed with: ONE decorator object applied to 1 (72%) / 2 (20%) / 3 (8%) functions "
         "(half of the further functions repeat the first signature, the others get their own; 20% of the cases use a fresh "
         "decorator per function instead; each call picks its function at random); the entry point of each call: f(..), "
@@ -137,6 +157,14 @@ RULE = ("three streams. alru: signature (0-3 positional-or-keyword parameters wi
         "f(1, z=1, x=2) / f(1, ('x', 2), ('z', 1)) ..) under alru_cache and acached_per_instance, over 7 spellings of "
         "g(*rest, **opts) and 8 of h(a, b=0, *, k=0, **opts); every ordered pair of 6 spellings of f(a, *rest, k=0, **opts) "
         "under @deduplicate() and with asyncio_fn= through yielded / .asynq() / .asyncio() calls. "
+        "Positional-only parameters: 30% of the functions with **opts that have a named positional parameter declare the first "
+        "1..n of them positional-only (def g(a, b=0, /, c=0, **opts)); such a parameter is passed positionally or left to its "
+        "default, and 50% of the calls also pass a KEYWORD named like a positional-only parameter (value 0-3; a valid call, "
+        "**opts collects it: g(1, a=2) - the open finding); a keyword named `self` is not generated "
+        "(ASSUMPTIONS). Exhaustive cores: every 3-call history over 6 spellings of "
+        "g(a, /, **opts) (g(1) / g(1, a=2) / g(1, a=3) / g(2) / g(1, x=2) / g(2, a=2)) under alru_cache and "
+        "acached_per_instance, over 7 spellings of h(a, b=0, /, c=0, **opts) (h(1, b=1) / h(1, 1) / h(1, 0, b=1) ..) and over 5 "
+        "of f(a, /, *rest, **opts). "
         "non-trivial = at least 3 calls with at least one reference hit and one reference miss; distinct by case hash")
 TRUSTED = [
     "hand-written Lean model AsynqModel.Lib.Cache / Lib.CacheFam tied to the code by this differential run only",
@@ -159,20 +187,39 @@ ASSUMPTIONS = [
     "the theorems hold for every history, and the observers judge the implementation's observations for every entry point",
     "in asyncio mode a body blocks on the event loop (asyncio.sleep(0)), not on a batch (batch items are not supported "
     "there); errors are Exception subclasses, yielded values plain (outside C15's open findings)",
-    "values are tuples (10% of them a falsy tuple subclass); a body that returns None is not generated (the harness "
-    "identifies a returned value by identity)",
-    "wrapped functions may have *rest (modelled: Sig.varargs) and **opts (modelled: Lib/CacheKw.lean, default key only) but "
-    "no positional-only parameters; argument values are hashable and compared by ==: small integers, and - positional "
-    "arguments of functions with **opts only - 2-tuples (name, small integer); the values of keywords are small integers",
-    "with positional-only parameters qcore's get_args_tuple has further collisions, all of them between a valid call and "
-    "a call Python cannot bind (g(1, 2) cached, then g(a=1, b=2) for def g(a, /, b=0) is answered from the cache instead of "
-    "raising TypeError; likewise h(1, ('x', 2)) after h(1, x=2) for def h(a, **kw) WITHOUT *rest): the class of the next "
-    "item, not generated",
+    "values are fresh tuples identified by identity (10% of them a falsy tuple subclass, 4% falsy and == everything), or one "
+    "of the singletons None / NotImplemented / qcore.caching.miss / qcore.caching.not_computed / False / 0 / '' / (): which "
+    "run a returned singleton comes from is unobservable for any program, so two runs that returned the same singleton "
+    "returned THE SAME value: a singleton returned by a call during which the body ran and returned it is reported as that "
+    "run's result; one returned without a run (a hit) is named by the driver after the run the model predicts if that run "
+    "returned it (resolveSingletons; the body-run counters are observed independently of it). Values that are unhashable, raise in "
+    "__eq__ / __bool__, or are futures / generators are not generated",
+    "wrapped functions may have *rest (modelled: Sig.varargs), **opts (modelled: Lib/CacheKw.lean, default key only) and - "
+    "together with **opts - positional-only parameters (modelled: the count `po` of Lib/CacheKw.lean); argument values are "
+    "hashable and compared by ==: small integers, and - positional arguments of functions with **opts only - 2-tuples "
+    "(name, small integer); the values of keywords are small integers",
+    "positional-only parameters TOGETHER WITH **opts: a keyword named like a positional-only parameter is a VALID call (the "
+    "keyword lands in **opts) and qcore's get_args_tuple drops it from the key or takes it for the parameter - two valid "
+    "calls receive each other's value. Generated, judged, recorded as an OPEN FINDING (known_findings.json, "
+    "C13_open_posonly_counterexample); the theorems about open signatures carry the hypothesis poClean / openCallOK",
+    "positional-only parameters WITHOUT **opts (def g(a, /, b=0)) are not generated: there every collision of get_args_tuple "
+    "is between a valid call and a call Python cannot bind (g(1, 2) cached, then g(a=1, b=2) is answered from the cache "
+    "instead of raising TypeError; likewise h(1, ('x', 2)) after h(1, x=2) for def h(a, **kw) WITHOUT *rest) - the class "
+    "of the unbindable calls below",
+    "a keyword named `self` is NOT generated (audit 3, F: excluded explicitly). In the pure-Python build it never reaches a "
+    "cache wrapper: AsyncDecorator.__call__(self, *args, **kwargs) / .asynq(self, ..) of asynq and new_fun(self, *args, "
+    "**kwargs) of acached_per_instance raise TypeError (multiple values for argument 'self') whatever **opts the wrapped "
+    "function has - the open model follows that build (kwSelf of Lib/CacheKw.lean: TypeError, nothing runs; for "
+    "acached_per_instance the real TypeError even precedes the creation of a new instance's entry); the CYTHON build "
+    "accepts the keyword for an alru_cache function (it lands in **opts; seen with VERIF_SEED=7 --tier thorough), so the "
+    "behaviour is build-dependent and belongs to C09's calling conventions, not to the caches; keywords named like a parameter of an entry point (`fn` of async_call, `context` of call_with_context) are "
+    "not generated (C09's open finding async_call/keyword-named-fn)",
     "per-instance FAMILIES (several methods under one decorator object) that contain a method with **opts: the single-"
     "method theorem C13_per_instance_open_signature_refines_partial speaks about each method alone, no family theorem "
     "does (alru_cache families: C13_alru_family_projection reduces them to the single-function theorem)",
     "calls Python cannot bind are covered when an argument is missing or a keyword is unexpected (TypeError, nothing "
-    "runs). A call that passes too many positionals (to a function without *rest) or one parameter twice is OUTSIDE the property: it has no "
+    "runs). A call that passes too many positionals (to a function without *rest), one parameter twice or a REQUIRED "
+    "positional-only parameter by keyword (g(a=1) for def g(a, /, **opts): TypeError in Python) is OUTSIDE the property: it has no "
     "normalised arguments, and qcore's get_args_tuple maps it onto the key of a valid call, so it is answered from the "
     "cache when that call is cached and raises TypeError when it is not (reproduced on the real code; hypothesis "
     "alruCallOK / perInstCallOK of the refinement theorems, needed: C13_alru_callOK_needed, "
@@ -231,6 +278,10 @@ def gen_sig(rng, method=False, allow_empty=True):
         sig["varkw"] = 1
         if rng.random() < 0.6:
             sig["varargs"] = 1
+        if npos and rng.random() < 0.3:
+            # def g(a, b=0, /, c=0, **opts): the first 1..npos named positional parameters are positional-only (`self` of a
+            # method, which precedes them, is then positional-only too and is not counted)
+            sig["posonly"] = rng.randint(1, npos)
     return sig
 
 
@@ -253,10 +304,17 @@ def spell(rng, sig, binding, allpos=False, rest=None):
     every positional-or-keyword parameter is passed positionally)"""
     params = sig_params(sig)
     npos = len([p for p in params if not p[2]])
-    p = npos if (allpos or rest) else rng.randint(0, npos)
+    po = sig.get("posonly", 0)
+    # a positional-only parameter is passed positionally or - when the binding has its default - omitted
+    pmin = po
+    while pmin > 0 and params[pmin - 1][1] is not None and params[pmin - 1][1] == binding[pmin - 1]:
+        pmin -= 1
+    p = npos if (allpos or rest) else rng.randint(pmin, npos)
     args = list(binding[:p]) + list(rest or [])
     kw = []
-    for (n, d, ko), v in list(zip(params, binding))[p:]:
+    for i, ((n, d, ko), v) in list(enumerate(zip(params, binding)))[p:]:
+        if i < po:
+            continue
         if d is not None and d == v and rng.random() < 0.6 and not (allpos and not ko):
             continue
         kw.append([n, v])
@@ -299,6 +357,14 @@ def unbindable(rng, sig, args, kw):
     kwonly = [n for n, d, ko in params if ko]
     if len(args) > len(names_pos):
         args = args[:len(names_pos)]      # (a call that overflows into *rest: cut the overflow)
+    po = sig.get("posonly", 0)
+    req_po = [i for i in range(po) if params[i][1] is None]
+    if req_po and sig.get("varkw") and rng.random() < 0.5:
+        # a REQUIRED positional-only parameter passed by keyword (TypeError in Python; get_args_tuple builds a key)
+        i = rng.choice(req_po)
+        vals = list(args[i:]) + [rng.randint(0, 1)]
+        return args[:i], [x for x in kw if x[0] not in names_pos[i:]] + [[n, vals[min(j, len(vals) - 1)]] for j, n in
+                                                                       enumerate(names_pos[i:])]
     if args and rng.random() < 0.5:
         # one parameter twice: a positional one repeated as a keyword
         n = names_pos[rng.randrange(len(args))]
@@ -356,10 +422,18 @@ def gen_call(rng, sig, pool, inst=0, allpos=False, malformed_rate=0.05, lazy=Fal
           "blocks": blocks, "rpos": rng.randint(0, 1), "via": pick_via(rng, "lazy" if lazy else kind, aio)}
     if fn:
         op["fn"] = fn
-    if rng.random() < 0.1:
+    r = rng.random()
+    if r < 0.1:
         op["falsy"] = 1          # the value the body returns is falsy (bool(value) is False)
+    elif r < 0.14:
+        op["falsy"] = 2          # ... falsy AND == everything (None and every sentinel included)
+    elif r < 0.26:
+        # the body returns a SINGLETON: 1 None, 2 NotImplemented, 3 qcore.caching.miss, 4 qcore.caching.not_computed,
+        # 5 False, 6 0, 7 "", 8 ()
+        op["vk"] = rng.choice([1, 1, 1, 1, 1, 2, 3, 4, 5, 6, 7, 8])
     if selfref_rate and rng.random() < selfref_rate:
         op["selfref"] = 1
+        op.pop("vk", None)
     if lazy:
         op["dur"] = rng.choice([0, 0, 1, 3, 7])
         return op
@@ -380,6 +454,14 @@ def gen_call(rng, sig, pool, inst=0, allpos=False, malformed_rate=0.05, lazy=Fal
             else:
                 extra_kw.append(list(e))
     args, kw = spell(rng, sig, b, allpos, rest)
+    if sig.get("posonly") and sig.get("varkw") and rng.random() < 0.5:
+        # a keyword that has the NAME of a positional-only parameter which is passed positionally or left to its default:
+        # a valid call, **opts collects the keyword (g(1, a=2) for def g(a, /, **opts)) - the open finding
+        params = sig_params(sig)
+        ok = [i for i in range(sig["posonly"]) if i < len(args) or params[i][1] is not None]
+        if ok:
+            extra_kw.append([params[rng.choice(ok)][0], rng.randint(0, 3)])
+    # (a keyword named `self` is NOT generated: build-dependent, see ASSUMPTIONS)
     if extra_kw:
         kw = kw + extra_kw
         rng.shuffle(kw)
@@ -595,13 +677,14 @@ def exhaustive_core(tier):
             if sum(1 for o in h if o["op"] == "call") < 2:
                 continue
             cases.append({"cache": "lazy", "ttl": ttl, "t0": 1, "ops": [dict(o) for o in h]})
-    return cases + varargs_core() + open_core() + family_core(tier) + asyncio_core(tier) + big_core() + recur_core(tier)
+    return cases + varargs_core() + open_core() + posonly_core() + singleton_core() + family_core(tier) + asyncio_core(tier) + big_core() + recur_core(tier)
 
 
 def varargs_core():
     """functions that collect further positional arguments: every 3-call history over the spellings of
-    f(a, *rest, k=0) / m(self, a, *rest, k=0) (where the default key conflates f(1, 2) and f(1, k=2): the open finding)
-    and of g(a, *rest) (no keyword-only parameter: the key is right, overflow included)"""
+    f(a, *rest, k=0) / m(self, a, *rest, k=0) (where the default key used to conflate f(1, 2) and f(1, k=2): fixed in
+    /repo by 1a3d17f - _args_cache_key keeps the overflow apart -, seeds C13-3 / C13-6 re-introduce it) and of g(a, *rest)
+    (no keyword-only parameter, overflow included)"""
     cases = []
     vsig = {"args": ["a"], "defaults": [], "kwonly": ["k"], "kwd": [["k", 0]], "varargs": 1}
     vmsig = dict(vsig, args=["self", "a"])
@@ -649,6 +732,57 @@ def open_core():
         cases.append({"cache": "alru", "maxsize": 4, "keyspec": "default", "sig": ksig, "wrap": "dedup", "ops": ops})
         cases.append({"cache": "alru", "maxsize": 4, "keyspec": "default", "sig": ksig, "native": 1,
                       "ops": [dict(o, via="asyncio" if i % 2 else "sync") for i, o in enumerate(ops)]})
+    return cases
+
+
+def singleton_core():
+    """values that defeat sentinel / identity / truthiness shortcuts, one history per value and cache: call, the same
+    call again (a hit: the body must not run), another key, the first call again; under maxsize 1 the third call evicts"""
+    cases = []
+    s1 = {"args": ["a"], "defaults": [], "kwonly": [], "kwd": []}
+    m1 = {"args": ["self", "a"], "defaults": [], "kwonly": [], "kwd": []}
+    kinds = [{"vk": k} for k in range(1, 9)] + [{"falsy": 1}, {"falsy": 2}]
+    for kd in kinds:
+        for other in ({}, kd):
+            h = [([0], kd), ([0], kd), ([1], other), ([0], kd), ([1], other)]
+            for maxsize in (1, 2):
+                for keyspec in ("default", "raw"):
+                    cases.append({"cache": "alru", "maxsize": maxsize, "keyspec": keyspec, "sig": s1,
+                                  "ops": [_call(a, [], blocks=i % 2, **x) for i, (a, x) in enumerate(h)]})
+            cases.append({"cache": "perinst", "sig": m1,
+                          "ops": [_call(a, [], inst=0, **x) for a, x in h] + [{"op": "drop", "inst": 0}, _call([0], [], inst=0, **kd)]})
+        for ttl in (0, 5):
+            cases.append({"cache": "lazy", "ttl": ttl, "t0": 1,
+                          "ops": [_call([], [], **kd), _call([], [], **kd), {"op": "tick", "d": 6}, _call([], [], **kd),
+                                  {"op": "dirty"}, _call([], [], dur=1, **kd), _call([], [])]})
+    return cases
+
+
+def posonly_core():
+    """positional-only parameters + **opts: every 3-call history over the spellings of g(a, /, **opts) /
+    m(self, a, /, **opts) (g(1), g(1, a=2), g(1, a=3) are three different valid calls - the OPEN FINDING: one key), of
+    h(a, b=0, /, c=0, **opts) (h(1, b=1) / h(1, 1): the keyword is taken for the parameter; h(1, b=1) / h(1, 0, b=1): one
+    call, two keys) and of f(a, /, *rest, **opts)"""
+    cases = []
+    X = ["x", 2]
+    gsig = {"args": ["a"], "defaults": [], "kwonly": [], "kwd": [], "varkw": 1, "posonly": 1}
+    gmsig = dict(gsig, args=["self", "a"])
+    gsp = [([1], []), ([1], [["a", 2]]), ([1], [["a", 3]]), ([2], []), ([1], [X]), ([2], [["a", 2]])]
+    for h in itertools.product(gsp, repeat=3):
+        if len(set(json.dumps(x) for x in h)) < 2:
+            continue
+        cases.append({"cache": "alru", "maxsize": 2, "keyspec": "default", "sig": gsig, "ops": [_call(a, k) for a, k in h]})
+        cases.append({"cache": "perinst", "sig": gmsig, "ops": [_call(a, k, inst=i // 2) for i, (a, k) in enumerate(h)]})
+    hsig = {"args": ["a", "b", "c"], "defaults": [0, 0], "kwonly": [], "kwd": [], "varkw": 1, "posonly": 2}
+    hsp = [([1], []), ([1], [["b", 1]]), ([1, 1], []), ([1, 0], [["b", 1]]), ([1], [["c", 1]]), ([1], [["c", 1], ["b", 1]]),
+           ([1, 1, 1], [])]
+    fsig = {"args": ["a"], "defaults": [], "kwonly": [], "kwd": [], "varargs": 1, "varkw": 1, "posonly": 1}
+    fsp = [([1], []), ([1], [["a", 2]]), ([1, 2], []), ([1, 2], [["a", 2]]), ([1, ["a", 2]], [])]
+    for sig, sp in ((hsig, hsp), (fsig, fsp)):
+        for h in itertools.product(sp, repeat=3):
+            if len(set(json.dumps(x) for x in h)) < 2:
+                continue
+            cases.append({"cache": "alru", "maxsize": 2, "keyspec": "default", "sig": sig, "ops": [_call(a, k) for a, k in h]})
     return cases
 
 
@@ -797,6 +931,10 @@ def shrink(case):
         c["ops"] = [dict(o, via="sync") if o.get("via") in AIO_VIAS else o for o in ops]
         yield c
     for i, o in enumerate(ops):
+        if o["op"] == "call" and (o.get("vk") or o.get("falsy")):
+            c = dict(case)
+            c["ops"] = ops[:i] + [dict((k, v) for k, v in o.items() if k not in ("vk", "falsy"))] + ops[i + 1:]
+            yield c
         if o["op"] == "call" and (o.get("blocks") or o.get("via") != "sync" or o.get("dur")):
             c = dict(case)
             o2 = dict(o, blocks=0, via="sync")
@@ -843,16 +981,18 @@ def signature(case, v):
     several functions, asyncio mode, asyncio_fn - it does need).  The driver appends `+cached-value-refers-to-instance`
     when the clause is `instances`, a body of the case returns a value that refers to its instance and the observations
     are exactly those of the model of the code as it is (the closure dict keeps such an instance and its entry alive),
-    and `+varargs-overflow-read-as-keyword-only` when the clause is `foreign-value`, the case contains a call whose
-    positional arguments overflow into the *rest of a function with keyword-only parameters and the observations are
-    exactly those of the model of the code as it is: one defect, one signature, and every other way of getting the
-    number of entries wrong / of returning a foreign value keeps its own."""
+    and `+keyword-named-like-positional-only-parameter` when the clause is one a wrong KEY can cause (foreign-value,
+    hit-ran-body, hit-wrong-value, stale-value), the case contains a VALID call with a keyword named like a
+    positional-only parameter of a function with **opts and the observations are exactly those of the model of the code as
+    it is: one defect, one signature, and every other way of getting the number of entries wrong / of returning a foreign
+    value keeps its own."""
     spec = v["spec"]
     if spec == "fail:instances+cached-value-refers-to-instance":
         return "perinst/cached-value-referring-to-its-instance-is-never-released"
-    if spec == "fail:foreign-value+varargs-overflow-read-as-keyword-only":
-        # one root cause (the argument-name list `args + kwonlyargs` omits *rest) in both decorators: one signature
-        return "default-key/positional-overflow-into-varargs-read-as-keyword-only/wrong-value"
+    if spec.endswith("+keyword-named-like-positional-only-parameter"):
+        # one root cause (get_args_tuple does not know that a keyword cannot bind a positional-only parameter) in both
+        # decorators and for every clause it shows up as: one signature
+        return "default-key/keyword-named-like-positional-only-parameter/wrong-value"
     return "%s/%s/%s" % (case["cache"], case.get("keyspec", "-"), spec)
 
 
@@ -872,7 +1012,8 @@ def _sig_wire(sig):
         " ".join(str(d) for d in sig["defaults"]),
         " ".join(str(NAMES[k]) for k in sig["kwonly"]),
         " ".join("(%d %d)" % (NAMES[k], v) for k, v in sig["kwd"]),
-        ("1" if sig.get("varargs") else "0") + (" 1" if sig.get("varkw") else ""),
+        ("1" if sig.get("varargs") else "0") + (" 1" if sig.get("varkw") else "") +
+        (" %d" % sig["posonly"] if sig.get("varkw") and sig.get("posonly") else ""),
     )
 
 
@@ -880,9 +1021,12 @@ def _params_source(sig):
     params = []
     args = sig["args"]
     nd = len(sig["defaults"])
+    po = sig.get("posonly", 0) + (1 if "self" in args else 0) if sig.get("posonly") else 0
     for i, n in enumerate(args):
         j = i - (len(args) - nd)
         params.append("%s=%d" % (n, sig["defaults"][j]) if j >= 0 else n)
+        if i + 1 == po:
+            params.append("/")
     if sig.get("varargs"):
         params.append("*rest")
     if sig["kwonly"]:
@@ -1005,6 +1149,7 @@ def run_case(case):
     clock = [case.get("t0", 1)]
     produced = {}
     produced_selfref = {}
+    fresh_singleton = [None]
     state = {}
 
     class Batch(BatchBase):
@@ -1030,6 +1175,28 @@ def run_case(case):
         def __bool__(self):
             return False
 
+    class EqAllTuple(tuple):
+        """falsy and == everything: defeats `value == sentinel`, `value in (None, miss)`, `if value:` shortcuts"""
+        def __bool__(self):
+            return False
+
+        def __eq__(self, other):
+            return True
+
+        def __ne__(self, other):
+            return False
+
+        __hash__ = tuple.__hash__
+
+    import qcore.caching as qc
+    singletons = {1: None, 2: NotImplemented, 3: qc.miss, 4: qc.not_computed, 5: False, 6: 0, 7: "", 8: ()}
+
+    def singleton_kind(v):
+        for k, x in singletons.items():
+            if v is x or (k >= 6 and type(v) is type(x) and v == x):
+                return k
+        return 0
+
     class Ctx(asynq.AsyncContext):
         def resume(self):
             pass
@@ -1050,9 +1217,13 @@ def run_case(case):
             v = ("v", stamp, tuple(received), f, owner)
             produced_selfref[id(v)] = (stamp, tuple(received), f, id(owner))
             return v
+        if s.get("vk"):
+            # a singleton has no identity of its own: remember that THIS call's own run produced it
+            fresh_singleton[0] = (s["vk"], stamp, tuple(received), f)
+            return singletons[s["vk"]]
         v = ("v", stamp, tuple(received), f)
         if s.get("falsy"):
-            v = FalsyTuple(v)
+            v = FalsyTuple(v) if s["falsy"] == 1 else EqAllTuple(v)
         produced[id(v)] = v
         return v
 
@@ -1172,11 +1343,20 @@ def run_case(case):
         return len(d)
 
     def res_of(v, f):
+        k = singleton_kind(v)
+        if k:
+            fs = fresh_singleton[0]
+            if fs is not None and fs[0] == k and fs[3] == f:
+                # the body ran during this call and returned this very singleton: the call returned (a value identical
+                # to) its own fresh result - named without any help of the model
+                return "(ok %d (%s))" % (fs[1], " ".join(str(x) for x in fs[2]))
+            # a singleton that no run of this call produced (a hit): named by the driver (resolveSingletons)
+            return "(okNone)" if k == 1 else "(okS %d)" % k
         if v is None:
             return "(okNone)"
         got = produced.get(id(v))
         if got is v:
-            if v[3] != f:       # a value computed by ANOTHER function of the family
+            if tuple.__getitem__(v, 3) != f:       # a value computed by ANOTHER function of the family
                 return "(ok %d (%d))" % (UNKNOWN, UNKNOWN)
             return "(ok %d (%s))" % (v[1], " ".join(str(x) for x in v[2]))
         got = produced_selfref.get(id(v))
@@ -1257,6 +1437,7 @@ def run_case(case):
             if name == "call":
                 ncalls += 1
                 script[0] = op
+                fresh_singleton[0] = None
                 args = [tuple(a) if isinstance(a, list) else a for a in op["args"]]     # ["x", 2]: the value ("x", 2)
                 kw = dict((k, v) for k, v in op["kw"])
                 via = op["via"]
@@ -1290,18 +1471,22 @@ def run_case(case):
                     misses += 1
                 elif res.startswith("(ok"):
                     hits += 1
-                wop = "(call %d (%s) (%s) %d %d %d %d)" % (
+                vk = 0 if (op.get("selfref") and kind == "perinst") else op.get("vk", 0)
+                wop = "(call %d (%s) (%s) %d %d %d %d%s)" % (
                     op["inst"], " ".join(str(_tok(x)) for x in op["args"]),
                     " ".join("(%d %d)" % (NAMES[k], v) for k, v in op["kw"]), 1 if op["raises"] else 0, op.get("dur", 0),
-                    1 if (op.get("selfref") and kind == "perinst") else 0, f)
+                    1 if (op.get("selfref") and kind == "perinst") else 0, f, " %d" % vk if vk else "")
                 feats.append("via=" + op["via"])
                 if op["blocks"]:
                     feats.append("blocking-body" + ("(DebugBatchItem)" if op["blocks"] == 2 and via not in AIO_VIAS else
                                                     "(on-the-event-loop)" if via in AIO_VIAS else ""))
                 if op["raises"]:
                     feats.append("raising-body")
+                elif vk:
+                    feats.append("value=singleton:" + ["", "None", "NotImplemented", "qcore.miss", "qcore.not_computed", "False",
+                                                       "0", "''", "()"][vk])
                 elif op.get("falsy"):
-                    feats.append("falsy-value")
+                    feats.append("falsy-value" if op["falsy"] == 1 else "falsy-and-==-everything-value")
                 if op.get("selfref") and kind == "perinst":
                     feats.append("value-refers-to-instance")
                 if op["kw"]:
@@ -1321,14 +1506,22 @@ def run_case(case):
                         pnames = names_pos + list(sig["kwonly"])
                         if any(k not in pnames for k, _ in op["kw"]):
                             feats.append("keyword-collected-by-**opts")
+                        if sig.get("posonly"):
+                            feats.append("signature-with-positional-only-parameters(+**opts)")
+                            if any(k in names_pos[:sig["posonly"]] for k, _ in op["kw"]):
+                                feats.append("keyword-named-like-positional-only-parameter" +
+                                             ("(TypeError)" if res == "(raisedType)" else "(valid call)"))
+                        if any(k == "self" for k, _ in op["kw"]):
+                            feats.append("keyword-named-self(TypeError)" if res == "(raisedType)" else "keyword-named-self(accepted)")
                     if any(isinstance(x, list) for x in op["args"]):
                         feats.append("positional-value-is-a-(name,value)-tuple")
                     if sig.get("varargs"):
                         feats.append("signature-with-*rest")
                         if len(op["args"]) > len(names_pos):
                             feats.append("call-overflows-into-*rest" + ("(+keyword-only-parameters)" if sig["kwonly"] else ""))
+                    po_ = sig.get("posonly", 0) if sig.get("varkw") else 0
                     if (len(op["args"]) > len(names_pos) and not sig.get("varargs")) or \
-                            any(k in names_pos[:len(op["args"])] for k, _ in op["kw"]):
+                            any(k in names_pos[po_:len(op["args"])] for k, _ in op["kw"]):
                         feats.append("unbindable-call(too-many-positionals/duplicate: correspondence only)")
                         if res.startswith("(ok"):
                             feats.append("unbindable-call-answered-from-cache")
